@@ -4,6 +4,7 @@ import (
 	"bytes"
 	"fmt"
 	"math/rand"
+	"mime"
 	"net/http"
 	"strconv"
 	"strings"
@@ -1165,7 +1166,15 @@ var errBodyContents = []string{"ascii", "nul", "space", "space-then-text",
 	"x80-run", "xbf-run", "xff-run", "xc0x80", "lead-at-cut", "cont-after-space", "daverr-ok", "daverr-cut"}
 
 var errBodyTypes = []string{"text/plain", "text/plain; charset=utf-8", "text/plain; charset=iso-8859-1", "text/html",
-	"application/xml", "text/xml; charset=utf-8", "", "text/plain; charset", ";;;", "TEXT/Plain"}
+	"application/xml", "text/xml; charset=utf-8", "", "text/plain; charset", ";;;", "TEXT/Plain",
+	// media types are case-insensitive (RFC 7231 section 3.1.1.1), optional white space around the parameter separator
+	"Application/XML", "TEXT/XML; charset=UTF-8", "application/Xml;charset=utf-8", `Text/xml ; charset="utf-8"`}
+
+// isXMLMediaType: the Content-Type names application/xml or text/xml.
+func isXMLMediaType(ct string) bool {
+	t, _, err := mime.ParseMediaType(ct)
+	return err == nil && (t == "application/xml" || t == "text/xml")
+}
 
 var errBodyCache = map[string][]byte{}
 
@@ -1325,7 +1334,7 @@ func (g *gen) errorBodies() {
 						}
 						cs.Chunk = []int{0, 0, 7, 1024}[idx%4]
 						cs.Exp = Expect{Verdict: "err", HTTPCode: status, NoData: true}
-						if content == "daverr-ok" && (ti == 4 || ti == 5) {
+						if content == "daverr-ok" && isXMLMediaType(ct) {
 							sp, lo := condFor(m.Fam)
 							cs.Exp.Cond = "{" + sp + "}" + lo
 						}
